@@ -24,13 +24,33 @@ theorem Send.write_err {x : Send} {n limit : Nat} {e : WriteErr} (h : x.write n 
     simp only [Gen.sendBudget] at hb
     exact ⟨by simpa using ‹¬(!x.isWritable) = true›, ‹x.stopReason = none›, hb, by simpa using h.symm⟩
 
-/-- a refused write on an open connection: no connection-level room, or the stream refused -/
+/-- the early stop test of `write_source` fires exactly on a writable half the peer stopped -/
+theorem stoppedFirst_some {x : Send} {c : Nat} :
+    x.stoppedFirst = some c ↔ (x.isWritable = true ∧ x.stopReason = some c) := by
+  unfold Send.stoppedFirst
+  simp only [Gen.writeStoppedFirst, Bool.true_and]
+  constructor
+  · intro h; split at h
+    · exact ⟨‹_›, h⟩
+    · contradiction
+  · intro ⟨h1, h2⟩; simp [h1, h2]
+
+theorem stoppedFirst_none {x : Send} :
+    x.stoppedFirst = none ↔ (x.isWritable = false ∨ x.stopReason = none) := by
+  unfold Send.stoppedFirst
+  simp only [Gen.writeStoppedFirst, Bool.true_and]
+  cases x.isWritable <;> simp
+
+/-- a refused write on an open connection: no connection-level room, or the stream refused, or the
+    peer had stopped it -/
 theorem write_err_cases {s s' s1 : State} {id n : Nat} {x : Send} {e : WriteErr}
     (h : s.write id n = some (s', .error e)) (hg : s.getOrInsertSend id = some (x, s1))
     (hc : s.connClosed = false) :
-    (Gen.writeLimit s.maxData s.dataSent s.sendWindow s.unackedData = 0 ∧ e = .blocked) ∨
+    (Gen.writeLimit s.maxData s.dataSent s.sendWindow s.unackedData = 0 ∧ e = .blocked ∧
+      x.stoppedFirst = none) ∨
     (Gen.writeLimit s.maxData s.dataSent s.sendWindow s.unackedData ≠ 0 ∧
-      x.write n (Gen.writeLimit s.maxData s.dataSent s.sendWindow s.unackedData) = some (.error e)) := by
+      x.write n (Gen.writeLimit s.maxData s.dataSent s.sendWindow s.unackedData) = some (.error e)) ∨
+    (∃ c, x.stoppedFirst = some c ∧ e = .stopped c) := by
   unfold State.write at h
   osplit h
   all_goals try (have := ‹s.connClosed = true›; rw [hc] at this; contradiction)
@@ -45,8 +65,9 @@ theorem write_err_cases {s s' s1 : State} {id n : Nat} {x : Send} {e : WriteErr}
     osplit hl
     subst hl
     first
-      | (left; exact ⟨‹_ = 0›, by simpa using h.2.symm⟩)
-      | (right
+      | (right; right; exact ⟨_, ‹Send.stoppedFirst _ = some _›, by simpa using h.2.symm⟩)
+      | (left; exact ⟨‹_ = 0›, by simpa using h.2.symm, ‹Send.stoppedFirst _ = none›⟩)
+      | (right; left
          have hw := ‹Send.write _ _ _ = some (Except.error _)›
          simp only [Except.error.injEq] at h
          rw [← h.2]; exact ⟨‹¬_ = 0›, hw⟩)
@@ -68,12 +89,13 @@ theorem write_decision {s s' s1 : State} {id n : Nat} {x : Send} {r : Except Wri
         (x.maxData - x.pending.offset) = 0 := by simp only [natMin_eq]; omega
     simp only [this, ↓reduceIte, hk]
   | error e =>
-    rcases write_err_cases h hg hc with ⟨h0, rfl⟩ | ⟨_, hx⟩
+    rcases write_err_cases h hg hc with ⟨h0, rfl, _⟩ | ⟨_, hx⟩ | ⟨c, hsf, _⟩
     · simp [h0, natMin_eq]
     · rcases Send.write_err hx with ⟨hnw, _⟩ | ⟨_, c, hsr, _⟩ | ⟨_, _, hb, rfl⟩
       · rw [hw] at hnw; contradiction
       · rw [hs] at hsr; contradiction
       · simp [hb, natMin_eq]
+    · rw [(stoppedFirst_some.mp hsf).2] at hs; contradiction
 
 /-- `open` returns nothing exactly when the connection is closed or no stream credit remains -/
 theorem open_none_iff {s s' : State} {d : Dir} {r : Option Nat} (h : s.open_ d = some (s', r)) :
